@@ -44,41 +44,50 @@ theorem C01_repaired (O : Oracles) (defs : String → Option Schema)
     (hs : wf Cfg.repaired (fun name => (defs name).isSome) s = true) (path : String) (v : JVal) :
     (validateF Cfg.repaired {} O defs n s path v).panicked = false ∧
     (validateF Cfg.repaired {} O defs n s path v).errors.isEmpty = validF O defs n s v :=
-  validateF_agree Cfg.repaired O rfl rfl (fun h => by cases h) defs hdefs n s hs path v (adm_repaired v)
+  validateF_agree Cfg.repaired O rfl (fun h => by cases h) defs hdefs n s hs path v (adm_repaired v)
 
 /-- **Any configuration.** The same statement for an arbitrary setting of the switches, under
     exactly the conditions that keep each open switch from showing: exact float oracles
     (`floatTolerance`), admissible instances (`adm`: no `null` while the null early exit is open,
-    no `$schema`/`id` members while that exemption is open), and the per-node conditions in `wf`
-    (`requiredByDefault`, `formatBypassesType`). -/
+    no `$schema`/`id` members while that exemption is open, no `headers` member holding objects with a
+    string `$ref` while IMPORTANT! messages are kept), and the per-node conditions in `wf`
+    (`requiredByDefault`, `formatBypassesType`). Every switch may be open except the additional-items
+    bound (repaired by a `fix:` commit). -/
 theorem C01_main (cfg : Cfg) (O : Oracles)
-    (hleak : cfg.leaksImportant = false) (hbound : cfg.addlItemsBound = false)
+    (hbound : cfg.addlItemsBound = false)
     (hO : cfg.floatTolerance = true → OExact O)
     (defs : String → Option Schema) (hdefs : DefsWf cfg defs) (n : Nat) (s : Schema)
     (hs : wf cfg (fun name => (defs name).isSome) s = true) (path : String) (v : JVal)
     (hv : adm cfg v = true) :
     (validateF cfg {} O defs n s path v).panicked = false ∧
     (validateF cfg {} O defs n s path v).errors.isEmpty = validF O defs n s v :=
-  validateF_agree cfg O hleak hbound hO defs hdefs n s hs path v hv
+  validateF_agree cfg O hbound hO defs hdefs n s hs path v hv
 
-/-- the code as it is, minus the leak of IMPORTANT! messages (the one open switch whose
-    no-trigger condition is not yet carried through the induction) -/
+/-- **The code as it is.** For the switches exactly as they stand in the code today (`Cfg.asIs`, after the `fix:`
+    commits): the validator tree never panics and its verdict is draft 4's whenever the float oracles are exact on the
+    case, the instance contains no `null`, no `$schema`/`id` member and no `headers` member holding objects with a string
+    `$ref`, no required property carries a default and no `format` sits on a non-numeric type — each condition the
+    no-trigger condition of one open deviation (witnesses below), none of them about the model rather than the code. -/
+theorem C01_asIs (O : Oracles) (hO : OExact O)
+    (defs : String → Option Schema) (hdefs : DefsWf Cfg.asIs defs) (n : Nat) (s : Schema)
+    (hs : wf Cfg.asIs (fun name => (defs name).isSome) s = true) (path : String) (v : JVal)
+    (hv : adm Cfg.asIs v = true) :
+    (validateF Cfg.asIs {} O defs n s path v).panicked = false ∧
+    (validateF Cfg.asIs {} O defs n s path v).errors.isEmpty = validF O defs n s v :=
+  validateF_agree Cfg.asIs O rfl (fun _ => hO) defs hdefs n s hs path v hv
+
+/-- the code as it is with the leak of IMPORTANT! messages closed (kept for the statements that were proved before that
+    switch was carried through the induction; `C01_asIs` supersedes them) -/
 def asIsNoLeak : Cfg := { Cfg.asIs with leaksImportant := false }
 
-/-- **As-is, partial.** For the switches as they stand in the code today (after the `fix:`
-    commits), except `leaksImportant`: verdicts agree with draft 4 whenever the float oracles are
-    exact on the case, the instance contains no `null` and no `$schema`/`id` member, no required
-    property carries a default and no `format` sits on a non-numeric type.
-    Missing for the full as-is statement: the invariant "no IMPORTANT!-tagged message unless the
-    instance has a `headers` member holding a `$ref`" is not yet threaded through the proofs
-    (witness of that deviation: `C01_witness_leaksImportant`). -/
+/-- the same with the IMPORTANT!-message switch closed: no condition on `headers` members (`adm asIsNoLeak`) -/
 theorem C01_asIs_partial (O : Oracles) (hO : OExact O)
     (defs : String → Option Schema) (hdefs : DefsWf asIsNoLeak defs) (n : Nat) (s : Schema)
     (hs : wf asIsNoLeak (fun name => (defs name).isSome) s = true) (path : String) (v : JVal)
     (hv : adm asIsNoLeak v = true) :
     (validateF asIsNoLeak {} O defs n s path v).panicked = false ∧
     (validateF asIsNoLeak {} O defs n s path v).errors.isEmpty = validF O defs n s v :=
-  validateF_agree asIsNoLeak O rfl rfl (fun _ => hO) defs hdefs n s hs path v hv
+  validateF_agree asIsNoLeak O rfl (fun _ => hO) defs hdefs n s hs path v hv
 
 /-- The one-shot entry point (root path "") and a validator object built with any root path
     give the same verdict. -/
@@ -98,6 +107,9 @@ def sDemo : Schema :=
 
 example : wf Cfg.repaired (fun _ => false) sDemo = true := by decide
 example : wf asIsNoLeak (fun _ => false) sDemo = true := by decide
+example : wf Cfg.asIs (fun _ => false) sDemo = true := by decide
+example : adm Cfg.asIs (.obj [("a", .num 2), ("headers", .obj [("X-A", .obj [("type", .str "string")])])]) = true := by decide
+example : adm Cfg.asIs (.obj [("headers", .obj [("X-A", .obj [("$ref", .str "#/x")])])]) = false := by decide
 example : adm asIsNoLeak (.obj [("a", .num 2), ("b", .arr [.str "x"])]) = true := by decide
 example : DefsWf Cfg.repaired (fun _ => none) := by intro _ _ h; cases h
 
